@@ -436,3 +436,95 @@ def _outer(db, chk, m, cls):
     for pn in ("visualize", "duration_ratio", "num_kernels", "include_memory_kernels", "image_renderer"):
         chk.ob("C05.R3-facade", f"facade argument -> parameter {pn}", H.name_id(bnd.get(pn)) == pn, ta.loc(cs[0]), found=ast.unparse(bnd[pn]) if pn in bnd else None, accepted=pn,
                why="the wrapper passes positionally: a swapped position feeds num_kernels as duration_ratio")
+
+
+# ------------------------------------------------------------------------------------------ thorough tier: the template itself
+BIT_SWEEP_SPEC = '''
+import pandas as pd
+
+def bit_sweep(merged, values, order):
+    """the template C05.R1 holds the code against, slot by slot: +v at the start / -v at the end of every merged interval of every type, rows in time order
+    (ties in the order given by `order`, a permutation of the boundary rows - an unstable sort may produce any of them), running = cumsum of the markers,
+    rows with running > 0 kept, duration = next time - time, time summed per set of bits."""
+    pieces = []
+    for ty, fam in merged.items():
+        pieces.append(pd.DataFrame({"status": [values[ty]] * len(fam), "time": [a for a, _ in fam]}))
+        pieces.append(pd.DataFrame({"status": [-values[ty]] * len(fam), "time": [b for _, b in fam]}))
+    df = pd.concat(pieces, ignore_index=True)
+    df = df.iloc[list(order)].sort_values("time", kind="stable").reset_index(drop=True)
+    df["running"] = df["status"].cumsum()
+    df["next_time"] = df["time"].shift(-1)
+    df = df[df["running"] > 0].copy()
+    df["dur"] = df["next_time"] - df["time"]
+    out = {}
+    for u, d in zip(df["running"], df["dur"]):
+        key = frozenset(ty for ty, v in values.items() if int(u) & v)
+        out[key] = out.get(key, 0) + d
+    return {k: v for k, v in out.items() if v}
+'''
+
+
+def thorough(db, chk) -> None:
+    """Validate the REFERENCE bit sweep (BIT_SWEEP_SPEC, the checker's own pandas source - not repository code) under the installed pandas against a brute-force
+    oracle: for every triple of small merged-interval families (one per kernel type; empty, touching and zero-length intervals included) and several tie orders
+    of the boundary rows, the time reported for a set of types equals the number of unit cells covered by exactly those types."""
+    import itertools
+    import random
+    ns: dict = {}
+    exec(compile(BIT_SWEEP_SPEC, "<C05 reference bit sweep>", "exec"), ns)
+    pts = range(0, 4)
+    ivs = [(a, b) for a in pts for b in pts if a <= b]
+    fams = [()] + [(i,) for i in ivs] + [(i, j) for i in ivs for j in ivs if i[1] <= j[0] and i != j and (i[1] < j[0] or i[0] == i[1] or j[0] == j[1])]   # merged: disjoint, not touching unless of zero length
+    types = ["COMPUTATION", "COMMUNICATION", "MEMORY"]
+    values = {ty: 1 << i for i, ty in enumerate(types)}
+    rng = random.Random(chk.seed or 0)
+    cells = lambda fam: {x for a, b in fam for x in range(a, b)}
+    n = bad = 0
+    first = None
+    triples = list(itertools.product(fams, repeat=3))
+    if len(triples) > 6000:
+        triples = rng.sample(triples, 6000)
+    for tri in triples:
+        if not any(tri):
+            continue
+        cs = [cells(f_) for f_ in tri]
+        want = {}
+        for x in set().union(*cs):
+            key = frozenset(ty for ty, c_ in zip(types, cs) if x in c_)
+            want[key] = want.get(key, 0) + 1
+        nrows = 2 * sum(len(f_) for f_ in tri)
+        orders = [list(range(nrows)), list(reversed(range(nrows)))]
+        p = list(range(nrows)); rng.shuffle(p); orders.append(p)
+        for od in orders:
+            got = ns["bit_sweep"](dict(zip(types, tri)), values, od)
+            n += 1
+            if {k: float(v) for k, v in got.items()} != {k: float(v) for k, v in want.items()}:
+                bad += 1
+                first = first or (tri, od, {"+".join(sorted(k)): float(v) for k, v in got.items()}, {"+".join(sorted(k)): v for k, v in want.items()})
+    chk.ob("C05.T1-reference-validated", f"reference bit sweep == brute-force exclusive-combination measure on all {n} (family triple, tie order) cases (endpoints 0..3, <= 2 merged intervals per type, empty and zero-length families included)",
+           bad == 0, "sa/props/c05.py:BIT_SWEEP_SPEC", found=f"{bad} disagreeing" + (f", first {first}" if first else ""), accepted="0 disagreeing",
+           why="the template the code is compared with must itself compute the partition of busy time, whatever order simultaneous boundaries are swept in")
+    # the same oracle rejects the neighbouring templates (the validation can tell them apart)
+    wrong = 0
+    for variant, edit in (("running >= 0", lambda s: s.replace('df["running"] > 0', 'df["running"] >= 0')), ("shift(+1)", lambda s: s.replace("shift(-1)", "shift(1)")),
+                          ("un-merged operand", None)):
+        ns2: dict = {}
+        if edit is not None:
+            exec(compile(edit(BIT_SWEEP_SPEC), "<variant>", "exec"), ns2)
+            tri = (((0, 1), (2, 3)), ((1, 3),), ())
+        else:
+            ns2 = ns
+            tri = (((0, 2), (1, 3)), ((1, 2),), ())          # overlapping intervals of one type handed over un-merged
+        cs = [cells(f_) for f_ in tri]
+        want = {}
+        for x in set().union(*cs):
+            key = frozenset(ty for ty, c_ in zip(types, cs) if x in c_)
+            want[key] = want.get(key, 0) + 1
+        try:
+            got = ns2["bit_sweep"](dict(zip(types, tri)), values, list(range(2 * sum(len(f_) for f_ in tri))))
+            differs = {k: float(v) for k, v in got.items()} != {k: float(v) for k, v in want.items()}
+        except Exception:
+            differs = True
+        wrong += bool(differs)
+    chk.ob("C05.T1-reference-validated", "the oracle tells the neighbouring templates apart (running >= 0, shift(+1), un-merged operand)", wrong == 3, "sa/props/c05.py:BIT_SWEEP_SPEC", found=f"{wrong} of 3 rejected", accepted="3 of 3")
+    chk.analysed_add("template_cases", f"bit_sweep:{n}")
